@@ -17,8 +17,9 @@ def run(args):
     props = [p for p, t in det.items() if "VIOLATION" in t]
     neutral = any("neutralised" in t for t in det.values())
     outside = any("outside the listed properties" in t for t in det.values())
+    missed = any("MISSED" in t for t in det.values())
     if not props:
-        return sid, ("neutralised" if neutral else "outside-the-properties" if outside else "no-catching-check-listed"), []
+        return sid, ("neutralised" if neutral else "outside-the-properties" if outside else "missed(recorded-in-DESIGN)" if missed else "no-catching-check-listed"), []
     w = f"/var/tmp/allseeds_{slot}"
     shutil.rmtree(w, ignore_errors=True)
     shutil.copytree("/repo/src", w + "/src")
